@@ -52,11 +52,30 @@ def class_formula(c, items, ignorecase=False):
 
 
 def _test(f):
-    return bool(SymBool(z3.simplify(f)))
+    f = z3.simplify(f)
+    if z3.is_true(f):
+        return True
+    if z3.is_false(f):
+        return False
+    return bool(SymBool(f))
+
+
+_STEPS = [0, 0]      # steps of the current top-level match, limit
+
+
+def _begin(n):
+    """step budget of one top-level match on a text of n characters: generous for the linear and quadratic scans the
+    real patterns need, far below what exponential backtracking takes (the real engine backtracks the same way, in C)"""
+    _STEPS[0] = 0
+    _STEPS[1] = 20000 + 60 * n * n
 
 
 def match_seq(nodes, k, s, i, groups, cont, flags):
     """CPS backtracking matcher; returns cont(...) of the first success in priority order, else None."""
+    _STEPS[0] += 1
+    if _STEPS[1] and _STEPS[0] > _STEPS[1]:
+        _STEPS[1] = 0
+        raise E.UnwindExceeded('regex backtracking: more than %d matcher steps in one match' % _STEPS[0])
     if k == len(nodes):
         return cont(i, groups)
     op, av = nodes[k]
@@ -151,6 +170,64 @@ def match_seq(nodes, k, s, i, groups, cont, flags):
     raise Unmodelled('regex op %s' % op)
 
 
+def unbounded_repeats(seq, before=()):
+    """every repetition without an upper bound in a parsed pattern, with the node sequence that has to match before it
+    is reached: [(before_nodes, body_nodes)]"""
+    out = []
+    seq = list(seq)
+    for k, (op, av) in enumerate(seq):
+        pre = list(before) + seq[:k]
+        if op is C.MAX_REPEAT or op is C.MIN_REPEAT:
+            lo, hi, sub = av
+            if hi is C.MAXREPEAT:
+                out.append((pre, list(sub)))
+            out += unbounded_repeats(sub, pre)
+        elif op is C.SUBPATTERN:
+            out += unbounded_repeats(av[3], pre)
+        elif op is C.BRANCH:
+            for alt in av[1]:
+                out += unbounded_repeats(alt, pre)
+        elif op is C.ASSERT or op is C.ASSERT_NOT:
+            out += unbounded_repeats(av[1], pre)
+    return out
+
+
+def single_char(body):
+    return len(body) == 1 and body[0][0] in (C.LITERAL, C.NOT_LITERAL, C.IN, C.ANY)
+
+
+def derivations(body, s, flags=0, limit=3):
+    """number (capped) of different ways the backtracking matcher can match (?:body)* against the whole of s: every
+    success is counted and then refused, which forces the matcher on to the next alternative, exactly the search a
+    failing suffix triggers in the real engine"""
+    cps = _as_symstr(s).cps
+    n = len(cps)
+    found = [0]
+
+    class _Enough(Exception):
+        pass
+
+    def cont(j, g):
+        if j == n:
+            found[0] += 1
+            if found[0] >= limit:
+                raise _Enough()
+        return None
+    _begin(n + 8)
+    try:
+        match_seq([(C.MAX_REPEAT, (0, C.MAXREPEAT, list(body)))], 0, cps, 0, {}, cont, flags)
+    except _Enough:
+        pass
+    return found[0]
+
+
+def full_match_nodes(nodes, s, flags=0):
+    cps = _as_symstr(s).cps
+    n = len(cps)
+    _begin(n + 8)
+    return match_seq(list(nodes), 0, cps, 0, {}, lambda j, g: True if j == n else None, flags) is not None
+
+
 def _tree(pattern):
     key = (pattern.pattern, pattern.flags)
     t = _TREES.get(key)
@@ -240,6 +317,7 @@ def sym_match_at(pattern, s, pos, full=False):
     tree = list(_tree(pattern))
     n = len(ss.cps)
     cont = (lambda j, g: (j, g) if j == n else None) if full else (lambda j, g: (j, g))
+    _begin(n)
     r = match_seq(tree, 0, ss.cps, pos, {}, cont, pattern.flags)
     if r is None:
         return None
